@@ -585,7 +585,11 @@ func (h *harness) idctSection() {
 			case 5:
 				q[k] = 1
 			default:
-				q[k] = byte(rd.Range(1, 24))
+				if i%16 < 8 {
+					q[k] = byte(rd.Range(1, 3)) // mostly in range
+				} else {
+					q[k] = byte(rd.Range(1, 24))
+				}
 			}
 		}
 		cb := make([]byte, 128)
